@@ -55,6 +55,23 @@ def pair_lines(rng, typ, n, nf, form, kind):
                 p1, p2 = (i, j) if rng.random() < 0.5 else (j, i)
                 modes = [m for m in ('both', 'rows', 'cols') if B.abbrev_sel([p1, p2], m) is not None]
                 B.add_through(p1, p2, as_kind=rng.choice(['through', 'line', 'mapped']), abbreviated=rng.choice(modes) if modes else 'full')
+    elif kind == 'double_forms':
+        # two different reflects on a pair of ports: double reflect in ascending port order on one side; on the other the ports the
+        # other way round, or a line with zero transmission, or a mapped 2x2 matrix, in either port order
+        if n < 2:
+            return None
+        A.solt()
+        B.solt()
+        for i in range(1, n + 1):
+            for j in range(i + 1, n + 1):
+                for _ in range(2):
+                    c1, c2 = rng.sample([calsim.SHORT, calsim.OPEN, calsim.MATCH], 2)
+                    A.add_double_reflect(i, j, c1, c2)
+                    how = rng.choice(['double', 'double', 'line', 'mapped'])
+                    if how == 'double' or rng.random() < 0.6:
+                        B.add_double_reflect(j, i, c2, c1, as_kind=how)
+                    else:
+                        B.add_double_reflect(i, j, c1, c2, as_kind=how)
     elif kind == 'order':
         A.solt()
         B.solt()
@@ -185,7 +202,7 @@ def scale_ab_line(rng, line, typ):
     return ' '.join(w)
 
 
-KINDS = ['through_forms', 'abbreviated', 'order', 'ab_scaling', 'unrelated', 'e12_ue14', 'renumber', 'freq_split']
+KINDS = ['through_forms', 'abbreviated', 'double_forms', 'order', 'ab_scaling', 'unrelated', 'e12_ue14', 'renumber', 'freq_split']
 
 
 def run(chk):
@@ -201,7 +218,7 @@ def run(chk):
     for _ in range(reps):
         for kind in KINDS:
             for typ in calsim.TYPES:
-                for n in (([1, 2, 3] if kind in ('abbreviated', 'through_forms', 'renumber') else [1, 2]) if quick else [1, 2, 3, 4]):
+                for n in (([1, 2, 3] if kind in ('abbreviated', 'through_forms', 'double_forms', 'renumber') else [1, 2]) if quick else [1, 2, 3, 4]):
                     if quick and typ in ('T16', 'U16') and n > 2:
                         continue
                     form = rng.choice(['m', 'ab']) if kind != 'ab_scaling' else 'ab'
